@@ -13,6 +13,7 @@ import (
 	"errors"
 	"fmt"
 	"io"
+	"os"
 	"runtime"
 	"strings"
 	"sync"
@@ -24,10 +25,19 @@ import (
 	"github.com/goplus/xgo/x/jsonrpc2"
 	"pgregory.net/rapid"
 
+	"verif/internal/gen/supervise"
 	"verif/internal/vk"
 )
 
 func TestMain(m *testing.M) {
+	if code, parent := supervise.Run("C39", "panic: jsonrpc2"); parent {
+		os.Exit(code)
+	}
+	if v := os.Getenv("VK_C39_CAP"); v != "" {
+		if d, err := time.ParseDuration(v); err == nil {
+			hardCap = d
+		}
+	}
 	jsonrpc2.VerifYield = dispatch
 	vk.Main(m, "C39", "exploration",
 		"two Connections (a, b) made with Dial over a pair of io.Pipes (optionally wrapped in fakenet.NewConn), both with handler, preempter (cancel notifications), tee framer and OnInternalError recorder; 1-4 client goroutines issue a drawn list of at most 40 ops on either side: Call(echo | slow | async | fail | cancel-me | unknown, awaited at once or deferred), Notify, cancel of an earlier call; a controller walks a drawn timeline of release / respond / Close / transport disconnect / read-error / write-error injection, each step after a drawn trigger (ops issued, calls completed, hook arrivals) or as soon as every goroutine is blocked (goroutine-dump quiescence, no timer); a drawn yield script says for the k-th arrival at a hook point of a side (update, write:before, write:after, read:loop, read:msg, read:exit): Gosched x n or park until the controller reaches step i. At the end the harness releases/responds everything, awaits all calls, closes both sides. "+
@@ -464,7 +474,7 @@ func quiesced() (bool, string) {
 	return true, dump
 }
 
-const hardCap = 60 * time.Second
+var hardCap = 60 * time.Second
 
 // waitUntil spins (Gosched) until cond holds. It gives up when the whole process is quiescent
 // (stalled = true, with the goroutine dump) or, as a last resort, after hardCap (capped = true).
@@ -484,7 +494,18 @@ func waitUntil(cond func() bool) (ok bool, dump string, capped bool) {
 			if deadline.IsZero() {
 				deadline = time.Now().Add(hardCap)
 			} else if time.Now().After(deadline) {
-				_, d := quiesced()
+				_, _, d := snapshot()
+				if d == "" {
+					d = string(dumpBuf[:runtime.Stack(dumpBuf, true)])
+				}
+				if os.Getenv("VK_C39_DEBUG") != "" {
+					for _, g := range strings.Split(d, "\n\n") {
+						l := strings.SplitN(g, "\n", 3)
+						if len(l) >= 2 {
+							fmt.Fprintf(os.Stderr, "CAP %s %s\n", l[0], l[1])
+						}
+					}
+				}
 				return false, d, true
 			}
 		}
@@ -731,10 +752,12 @@ func execute(c Case) (v *vk.Verdict, in info, capped bool) {
 		}
 		if cp {
 			r.drain()
+			defer r.abort()
 			return vk.Bad("no-quiescence", "calls neither complete nor does the process become quiescent within %v; goroutines:\n%s", hardCap, clip(dump, 30000)), in, true
 		}
 		if drained {
-			if n := strings.Count(dump, ").processResult("); readLoopsWriting(dump) >= 2 && n >= 2 {
+			defer r.abort()
+			if readLoopsWriting(dump) >= 2 {
 				return vk.Bad("read-loop-write-deadlock", "every goroutine is blocked: the read loops of both connections are writing a response (acceptRequest -> processResult -> write) while the peer, doing the same, does not read; %s; goroutines:\n%s", r.unreturned(), clip(dump, 30000)), in, false
 			}
 			return vk.Bad("await-stall", "every goroutine is blocked, all handlers have been released and answered, yet %s; goroutines:\n%s", r.unreturned(), clip(dump, 30000)), in, false
@@ -762,8 +785,7 @@ func execute(c Case) (v *vk.Verdict, in info, capped bool) {
 		}
 	})
 	if !ok {
-		sa.rwc.Close()
-		sb.rwc.Close()
+		defer r.abort()
 		if cp {
 			return vk.Bad("no-quiescence", "Close neither returns nor does the process become quiescent within %v; goroutines:\n%s", hardCap, clip(dump, 30000)), in, true
 		}
@@ -776,9 +798,15 @@ func execute(c Case) (v *vk.Verdict, in info, capped bool) {
 // readLoopsWriting counts goroutines that are inside readIncoming and, further up the stack,
 // inside Connection.write.
 func readLoopsWriting(dump string) int {
+	// only the connections of this execution: their read loops were started (by Dial) on the
+	// goroutine that took the dump, which is the first one in it
+	self := ""
+	if f := strings.Fields(dump); len(f) > 1 && f[0] == "goroutine" {
+		self = "in goroutine " + f[1] + "\n"
+	}
 	n := 0
 	for _, g := range strings.Split(dump, "\n\n") {
-		if strings.Contains(g, ".(*Connection).readIncoming(") && strings.Contains(g, ".(*Connection).write(") {
+		if strings.Contains(g+"\n", self) && strings.Contains(g, ".(*Connection).readIncoming(") && strings.Contains(g, ".(*Connection).processResult(") && strings.Contains(g, ".(*Connection).write(") {
 			n++
 		}
 	}
@@ -798,6 +826,15 @@ func (r *run) unreturned() string {
 		return "a client goroutine is stuck inside Call or Notify"
 	}
 	return strings.Join(b, "; ")
+}
+
+// abort tears the transport down so that the goroutines of a stalled execution go away.
+func (r *run) abort() {
+	for _, s := range r.sides {
+		s.rwc.Close()
+		s.peerRead.CloseWithError(io.ErrClosedPipe)
+		s.ownWrite.CloseWithError(io.ErrClosedPipe)
+	}
 }
 
 func (r *run) drain() {
